@@ -125,6 +125,22 @@ func c04Verify(raw, key []byte) (outcome, vkey, detail string) {
 	if d := snap.diff(m); d != "" {
 		return "", "check-side-effect", fmt.Sprintf("MessageIntegrity.Check changed the message: %s", d)
 	}
+	// the same check from inside a ForEach callback (ForEach hands the callback a window of the attribute list)
+	var ferr error
+	visited := false
+	_ = m.ForEach(stun.AttrMessageIntegrity, func(mm *stun.Message) error {
+		if !visited {
+			visited = true
+			ferr = stun.MessageIntegrity(key).Check(mm)
+		}
+		return nil
+	})
+	if visited && (ferr == nil) != (err == nil) {
+		return "", "check-inside-foreach", fmt.Sprintf("MessageIntegrity.Check = %v directly but %v from a ForEach(MESSAGE-INTEGRITY) callback: %x", err, ferr, clip(raw))
+	}
+	if d := snap.diff(m); d != "" {
+		return "", "check-side-effect", fmt.Sprintf("MessageIntegrity.Check inside ForEach changed the message: %s", d)
+	}
 	want, hasMI := refIntegrity(raw, key)
 	if (err == nil) != want {
 		k := "accepts-invalid"
@@ -227,6 +243,15 @@ func init() {
 					}
 					c.Outcome("long-term-key")
 				}
+				// every total credential length 0..700 (user grows; realm and password fixed)
+				for ul := 0; ul <= 700; ul++ {
+					cr := []string{string(patBytes(ul, 3)), "realm.example", "secret-password"}
+					c.Eval(1)
+					if k, d := c04LongTerm(cr); k != "" {
+						c.Violation(k, d, c04Case{Kind: "longterm", Cred: cr})
+					}
+				}
+				c.Outcome("long-term-key-lengths")
 			}
 			enumAttrLists(nb, beforeOpts, func(before []c04Attr) {
 				b0 := append([]c04Attr(nil), before...)
